@@ -318,7 +318,7 @@ static void caseNearest(Kind k, const std::string& cls, const std::vector<double
             pt = geo->findNearestPoint(p, inside, n);
             vh::Line o = vh::O(fn); v3(o, pt).i(inside); v3(o, Vec3(n)).emit();
         }
-        vh::D(fn + "." + cls);
+        vh::D(fn + "." + cls + (s.f(p) > 0 ? ".query_inside" : ".query_outside"));
         nearestPredicates(s, geo.get(), cls, p, pt, haveFlag, inside, haveNormal, Vec3(n), surfTol);
     } catch (const std::exception& e) {
         std::printf("O %s EXC:%s\n", fn.c_str(), "std::exception");
@@ -564,6 +564,13 @@ static void generic(vh::Rng& g, long n) {
         case ELL: par = {radii[0], radii[1], radii[2]}; s.a = radii[0]; s.b = radii[1]; s.c = radii[2]; break;
         case TOR: par = {R, tr}; s.a = R; s.b = tr; break;
         case BOX: par = {h[0], h[1], h[2]}; s.a = h[0]; s.b = h[1]; s.c = h[2]; break;
+        }
+        // one query in three is forced strictly inside the shape (a surface point moved inward along the normal)
+        if (it % 3 == 1 && shape != HS) {
+            vh::Rng gi(g.next()); Vec3 S = s.sample(gi, Vec3(0)), Nn = s.outward(S);
+            double minDim = shape == ELL || shape == BOX ? std::min(s.a, std::min(s.b, s.c)) : (shape == TOR ? s.b : s.a);
+            Vec3 q = S - g.range(0.05, 0.6) * minDim * Nn;
+            if (s.f(q) > 0 && std::abs(q[0]) > 1e-3 && std::abs(q[1]) > 1e-3 && std::abs(q[2]) > 1e-3) p = q;
         }
         // keep generic queries away from the singular sets: surface itself (flag band), torus centre circle, axes
         if (std::abs(s.f(p)) < 1e-3 * s.scale()) p *= 1.01;
